@@ -169,12 +169,17 @@ def _getitem(x, key, orig_key):
     # elements than the operand's index type can count
     indptr = np.empty(row_size + 1, dtype=np.intp)
     indptr[0] = 0
+    # the kernels only gather `data`; numba has no float16, so half-precision values travel as their 16-bit patterns
+    half = x.data.dtype == np.float16
+    arr_data = x.data.view(np.uint16) if half else x.data
     if pos_slice:
-        arg = get_slicing_selection(x.data, x.indices, indptr, starts, ends, cols)
+        arg = get_slicing_selection(arr_data, x.indices, indptr, starts, ends, cols)
     else:
-        arg = get_array_selection(x.data, x.indices, indptr, starts, ends, cols)
+        arg = get_array_selection(arr_data, x.indices, indptr, starts, ends, cols)
 
     data, indices, indptr = arg
+    if half:
+        data = data.view(np.float16)
     size = np.prod(shape[1:])
 
     if not np.any(uncompressed_inds):  # only indexing compressed axes
